@@ -33,6 +33,10 @@ Definition put_varint_buf (size : nat) (x : Z) : option (list byte) :=
   let v := varint x in
   if Nat.leb (length v) size then Some (v ++ zeros (size - length v)) else None.
 
+(* F5: Literal.UUID writes the first max(n, 8) bytes of a 10-byte zeroed buffer holding the n-byte varint *)
+Definition varint_min8 (x : Z) : list byte :=
+  let v := varint x in v ++ zeros (8 - length v).
+
 Fixpoint le_bytes (k : nat) (n : N) : list byte :=
   match k with
   | O => []
@@ -55,7 +59,7 @@ Definition pre_literal (l : literal) : outcome str :=
   match l with
   | LBool true => Ok s_true
   | LBool false => Ok s_false
-  | LInt z => match put_varint_buf 8 z with Some b => Ok b | None => Panic S_uuid_varint end
+  | LInt z => Ok (varint_min8 z)
   | LFloat b => Ok (le_bytes 8 b)
   | LText s => Ok s
   | LBlob b => Ok b
